@@ -147,7 +147,8 @@ func (d *Decoder) readPayload() (payload []byte, n int, err error) {
 	if d.compression { // Decoder expects compressed payload
 		// buf contains: claimedUncompressedSize + (compressed packet id & data)
 		buf := bytes.NewBuffer(payload)
-		claimedUncompressedSize, n, err := util.ReadVarIntReturnN(buf)
+		// n stays the number of bytes read for the whole frame
+		claimedUncompressedSize, _, err := util.ReadVarIntReturnN(buf)
 		if err != nil {
 			return nil, n, fmt.Errorf("error reading claimed uncompressed size varint: %w", err)
 		}
